@@ -52,6 +52,10 @@ def _cond_summary(conds, field):
             a, b = c[2], c[3]
             ka, kb = T.fold_int(a), T.fold_int(b)
             op = c[1] if c[4] else {"Lt": "Ge", "Ge": "Lt", "Gt": "Le", "Le": "Gt", "Eq": "Ne", "Ne": "Eq"}[c[1]]
+            # `needed > buffer.len()` is `buffer.len() < needed`: the length of the container goes on the left
+            if not (T.has_call(a, "::len") and _field_in(a, field)) and T.has_call(b, "::len") and _field_in(b, field):
+                a, b, ka, kb = b, a, kb, ka
+                op = {"Lt": "Gt", "Gt": "Lt", "Le": "Ge", "Ge": "Le"}.get(op, op)
             sym = {"Lt": "<", "Le": "<=", "Gt": ">", "Ge": ">=", "Eq": "==", "Ne": "!="}[op]
             if T.has_call(a, "::len") and _field_in(a, field):
                 rhs = str(kb) if kb is not None else ("needed" if _bounded_by_u16(b) else "?")
@@ -98,6 +102,12 @@ def rule_R1(ctx, only=None):
                 a = Q.call_args(b, S, blk, t)
                 n = callee_of(t)
                 if n.endswith("::reset") or _field_in(a[0], field) or (n.endswith("::remove") and "TtlCache" in n):
+                    # only a drain of everything / a truncation to nothing empties the container (`drain(..k)` keeps the rest)
+                    if n.endswith("::drain") and len(a) > 1 and not (T.strip(a[1])[0] == "agg" and "RangeFull" in (T.strip(a[1])[2] or "")) and \
+                            not (T.strip(a[1])[0] == "const" and "RangeFull" in str(T.strip(a[1])[3] or "")):
+                        continue
+                    if n.endswith("::truncate") and len(a) > 1 and not (T.strip(a[1])[0] == "const" and T.strip(a[1])[1] == 0):
+                        continue
                     clears.append(blk)
             flag_blocks = []
             for i, j, s in b.iter_stmts():
@@ -208,6 +218,27 @@ def rule_R2(ctx):
     ctx.check(okp, "R2", "tls:parse-once-complete", "buffered record parsed only when complete", "the buffered record is re-parsed before it is complete", ctx.loc(b))
 
 
+def rule_frame_cap_default(ctx, rule="R3"):
+    """the default frame cap is the protocol's initial SETTINGS_MAX_FRAME_SIZE (RFC 7540 6.5.2: 2^14): a frame of exactly that size is
+    legal before any SETTINGS exchange and has to be accepted (shared with C16 / C17)"""
+    P = ctx.program
+    dflt = [b2 for b2 in P.bodies.values() if b2.kind == "AssocFn" and b2.name == "default" and (b2.impl_self or "").endswith("Http2Config")]
+    if dflt:
+        vals = [x[1] for (_, _, term, _c) in TB.return_sites(dflt[0], P) for x in T.consts_in(term) if isinstance(x[1], int) and not isinstance(x[1], bool)]
+        # the value of the field itself, however it is written (`16384`, `1 << 14`, a named constant)
+        fld = []
+        adt = [a for a in P.adts.values() if a["path"].endswith("::Http2Config")]
+        if adt:
+            names = [f_["name"] for f_ in adt[0]["variants"][0]["fields"]]
+            for (_, _, term, _c) in TB.return_sites(dflt[0], P):
+                tt = T.strip(term)
+                if tt[0] == "agg" and "max_frame_size" in names and names.index("max_frame_size") < len(tt[4]):
+                    fld.append(T.fold_int(tt[4][names.index("max_frame_size")]))
+        if fld and all(v is not None for v in fld):
+            vals = fld
+        ctx.check(16384 in vals, rule, "http2:frame-cap-default", "default max_frame_size = 16384", "default max_frame_size changed: %s" % vals, ctx.loc(dflt[0]))
+
+
 def rule_R3(ctx):
     P = ctx.program
     # TLS 64 KiB cap (shared with C08-R4)
@@ -229,10 +260,7 @@ def rule_R3(ctx):
             if o and any(x[0] == "call" and x[1].endswith("from_be_bytes") for x in T.walk(o[2])):
                 okf = o[0] == "Ge"
     ctx.check(okf, "R3", "http2:frame-cap", "frame length <= config.max_frame_size before the payload is copied", "HTTP/2 frame size cap no longer dominates the payload copy", ctx.loc(f))
-    dflt = [b2 for b2 in P.bodies.values() if b2.kind == "AssocFn" and b2.name == "default" and (b2.impl_self or "").endswith("Http2Config")]
-    if dflt:
-        vals = [x[1] for (_, _, term, _c) in TB.return_sites(dflt[0], P) for x in T.consts_in(term) if isinstance(x[1], int) and not isinstance(x[1], bool)]
-        ctx.check(16384 in vals, "R3", "http2:frame-cap-default", "default max_frame_size = 16384", "default max_frame_size changed: %s" % vals, ctx.loc(dflt[0]))
+    rule_frame_cap_default(ctx)
     # HTTP/1 caps
     h = P.method1("Http1Parser", "parse_headers")
     SH = T.Slicer(h, P)
@@ -360,7 +388,16 @@ def rule_tracker_bounded(ctx):
     C19.rule_R1_R2(R.Retag(ctx, "C19."))
 
 
+def rule_loops_progress(ctx):
+    """the work done for one packet is proportional to its size: every loop over packet bytes is driven by a finite std iterator or makes
+    the reviewed progress on each iteration (shared with C01.R3)"""
+    from ..engine import report as R
+    from . import C01
+    C01.rule_loops(R.Retag(ctx, "C01."))
+
+
 def run(ctx):
+    rule_loops_progress(ctx)
     rule_tracker_bounded(ctx)
     rule_shared_decoder(ctx)
     rule_alloc_sizes(ctx)
